@@ -48,21 +48,24 @@ structure IP4 where
   payload : Bytes
 deriving Repr, DecidableEq
 
+/-- `if ip.Length == 0 { ip.Length = uint16(len(data)) }` -/
+def ip4Len (l dlen : Nat) : Nat := if l = 0 then dlen % 65536 else l
+
+/-- `if len(data) > Length { data = data[:Length] }` -/
+def ip4Cut (d : Bytes) (len : Nat) : Bytes := if d.length > len then d.take len else d
+
 def ip4 (d : Bytes) : Option IP4 :=
   if d.length < 20 then none else
   match u8 d 0, u8 d 1, u16 d 2, u16 d 4, u16 d 6, u8 d 8, u8 d 9 with
   | some b0, some tos, some l, some id, some ff, some ttl, some pr =>
-    let ihl := b0 % 16
-    let len := if l = 0 then d.length % 65536 else l      -- uint16(len(data))
-    if len < 20 then none
-    else if ihl < 5 then none
-    else if ihl * 4 > len then none
-    else
-      let d' := if d.length > len then d.take len else d
-      if ihl * 4 > d'.length then none                    -- "Not all IP header bytes available"
-      else if !ip4OptsOK (ihl * 4 - 20) (slice d' 20 (ihl * 4 - 20)) then none
-      else some { ihl, tos, len, id, ff, ttl, proto := pr, src := slice d 12 4, dst := slice d 16 4,
-                  payload := d'.drop (ihl * 4) }
+    if ip4Len l d.length < 20 then none
+    else if b0 % 16 < 5 then none
+    else if b0 % 16 * 4 > ip4Len l d.length then none
+    else if b0 % 16 * 4 > (ip4Cut d (ip4Len l d.length)).length then none   -- "Not all IP header bytes available"
+    else if !ip4OptsOK (b0 % 16 * 4 - 20) (slice (ip4Cut d (ip4Len l d.length)) 20 (b0 % 16 * 4 - 20)) then none
+    else some { ihl := b0 % 16, tos, len := ip4Len l d.length, id, ff, ttl, proto := pr,
+                src := slice d 12 4, dst := slice d 16 4,
+                payload := (ip4Cut d (ip4Len l d.length)).drop (b0 % 16 * 4) }
   | _, _, _, _, _, _, _ => none
 
 /-- `IPv4.NextLayerType` is `LayerTypeFragment` -/
